@@ -1,4 +1,5 @@
 import IoraModel.Lemmas.TlsPlan
+import IoraModel.Lemmas.TlsLife
 import IoraModel.Lemmas.TlsMatrixCli
 import IoraModel.Lemmas.TlsMatrixSrv
 import IoraModel.Lemmas.TlsMatrixHttp
@@ -55,6 +56,47 @@ theorem T1_httpserver_never_plain (h : HttpSrvTls) (tf : TFiles) : httpServerPla
 example : connectPlan {} {} .client .ipv4 = .refuse .connect := by decide
 example : listenPlan {} {} .server = .refuse .listen := by decide
 example : ∃ c h s, connectPlan { client := { enabled := true, defaultMode := .client } } {} .client .ipv4 = .tls c h s := ⟨_, _, _, rfl⟩
+
+/-! ## T1 (wrong role) — a TLS mode that does not fit the operation is REFUSED, whichever contexts the engine holds -/
+
+/-- **T1 (wrong role, connect).** `connect(host, port, TlsMode::Server)`: for every configuration — in particular an engine that
+HOLDS a server context, a client context, both or none — the only outcome is a refusal (of the start or of the connect): never
+a plain session, and never a TLS session either (the server context must not be used to connect). -/
+theorem T1_wrong_role_connect_refused (tc : TCfg) (tf : TFiles) (t : Target) :
+    connectPlan tc tf .server t = .refuse .start ∨ connectPlan tc tf .server t = .refuse .connect := by
+  unfold connectPlan
+  cases start tc tf with
+  | refused => simp
+  | up srv cli =>
+    simp only [connectOn, connectSite, G.eval, Env.atom]
+    cases tc.client.enabled <;> cases cli <;> simp
+
+/-- **T1 (wrong role, listen).** `addListener(ip, port, TlsMode::Client)`: refused whichever contexts exist. -/
+theorem T1_wrong_role_listen_refused (tc : TCfg) (tf : TFiles) :
+    listenPlan tc tf .client = .refuse .start ∨ listenPlan tc tf .client = .refuse .listen := by
+  unfold listenPlan
+  cases start tc tf with
+  | refused => simp
+  | up srv cli =>
+    simp only [listenOn, listenSite, G.eval, Env.atom]
+    cases tc.server.enabled <;> cases srv <;> simp
+
+/-- a dual-role engine: both contexts exist (the combination the refusal must not be fooled by) -/
+def dualRole : TCfg :=
+  { server := { enabled := true, defaultMode := .server, certFileSet := true, keyFileSet := true },
+    client := { enabled := true, defaultMode := .client } }
+example : ∃ s c, start dualRole {} = .up (some s) (some c) := ⟨_, _, rfl⟩
+example : connectPlan dualRole {} .server .ipv4 = .refuse .connect ∧ listenPlan dualRole {} .client = .refuse .listen := by
+  constructor <;> decide
+example : ∃ c h s, connectPlan dualRole {} .client .ipv4 = .tls c h s := ⟨_, _, _, rfl⟩
+example : ∃ c h s, listenPlan dualRole {} .server = .tls c h s := ⟨_, _, _, rfl⟩
+
+/-- **T1 (UDP).** `UdpEngine::connect` / `addListener` with a TLS mode are refused: there is no DTLS, and a datagram session in
+clear is not an acceptable substitute. -/
+theorem T1_udp_never_plain (req : Mode) (h : req ≠ .none) :
+    udpConnectPlan req = .refuse .connect ∧ udpListenPlan req = .refuse .listen := by
+  cases req <;> simp [udpConnectPlan, udpListenPlan, udpConnectRefusesTls, udpListenRefusesTls] at h ⊢
+example : udpConnectPlan .none = .plain := by decide
 
 /-- **T1 (URL spellings).** Whatever the spelling of the scheme: a URL whose scheme is `https` up to letter case is either
 rejected by `parseUrl` (nothing is sent) or requested with TLS — never sent over a plain session; and when it is accepted
@@ -143,7 +185,7 @@ configured CA location or, without one, the default paths — never "no store". 
 theorem T3_client_verify (tc : TCfg) (tf : TFiles) (req : Mode) (t : Target) (c : Ctx) (h s : Option String)
     (hp : connectPlan tc tf req t = .tls c h s) (hv : tc.client.verifyPeer = true) :
     c.verify.contains .peer = true ∧
-    c.trust = (if tc.client.caFileSet || tc.client.caPathSet then .locations tc.client.caFileSet tc.client.caPathSet else .default) := by
+    c.trust = (if tc.client.caFileSet || tc.client.caPathSet then { file := tc.client.caFileSet, path := tc.client.caPathSet, dflt := false } else { dflt := true }) := by
   obtain ⟨_, h2, _, h4⟩ := client_built _ _ _ (connectPlan_tls hp).1
   simp [h2, h4, hv]
 
@@ -206,18 +248,35 @@ theorem T4_http_partial (h : HttpTls) (tf : TFiles) (n : String) (c : Ctx) (host
 
 /-! ## T5 — a server that requires client certificates rejects clients without one -/
 
-/-- **T5 (flags).** `serverTls.verifyPeer` ⇒ `SSL_VERIFY_PEER | SSL_VERIFY_FAIL_IF_NO_PEER_CERT`, and the store is the configured CA. -/
+/-- **T5 (flags).** `serverTls.verifyPeer` ⇒ `SSL_VERIFY_PEER | SSL_VERIFY_FAIL_IF_NO_PEER_CERT`, and the store holds the configured
+CA location(s) AND NOTHING ELSE: the trust store is a set that accumulates, and the system roots (`default`) are not in it. -/
 theorem T5_server_flags (tc : TCfg) (tf : TFiles) (req : Mode) (c : Ctx) (h s : Option String)
     (hp : listenPlan tc tf req = .tls c h s) (hv : tc.server.verifyPeer = true) :
     c.verify.contains .peer = true ∧ c.verify.contains .failIfNoPeerCert = true ∧
-    c.trust = .locations tc.server.caFileSet tc.server.caPathSet := by
+    c.trust = { file := tc.server.caFileSet, path := tc.server.caPathSet, dflt := false } ∧ c.trust.located = true := by
   have hb := (listenPlan_tls hp).1
   obtain ⟨_, h2, _, h4, _⟩ := server_built _ _ _ hb
   have hca : (tc.server.caFileSet || tc.server.caPathSet) = true := by
     cases hf : tc.server.caFileSet <;> cases hpth : tc.server.caPathSet <;> simp
     have := server_refuses tc.server tf.server (server_built_guard _ _ _ hb).1 (server_built_guard _ _ _ hb).2 (Or.inl ⟨hv, hf, hpth⟩)
     rw [hb] at this; cases this
-  simp [h2, h4, hv, hca]
+  simp [h2, h4, hv, hca, Trust.located]
+
+/-- **T5 (store).** Whatever the system store holds, the verification store of a `verifyPeer` server is exactly what the operator
+configured: a client certificate issued by a publicly trusted (system-store) CA is NOT admitted on that ground. -/
+theorem T5_server_store_is_configured (tc : TCfg) (tf : TFiles) (req : Mode) (c : Ctx) (h s : Option String)
+    (hp : listenPlan tc tf req = .tls c h s) (hv : tc.server.verifyPeer = true) (configured sys : Anchors) :
+    c.trust.dflt = false ∧ storeOf c.trust configured sys = configured := by
+  obtain ⟨_, _, ht, hl⟩ := T5_server_flags tc tf req c h s hp hv
+  have hd : c.trust.dflt = false := by rw [ht]
+  refine ⟨hd, ?_⟩
+  cases configured <;> simp [storeOf, hl, hd, Anchors.union]
+
+/-- the accumulation is real: had `initTls` ALSO called `SSL_CTX_set_default_verify_paths`, the system store would be trusted too -/
+example : storeOf { file := true, dflt := true } .wrong .right = .both ∧
+    chains { issuer := .rightCA, inTime := true, names := [], possession := true } .both = true ∧
+    chains { issuer := .rightCA, inTime := true, names := [], possession := true } (storeOf { file := true } .wrong .right) = false := by
+  refine ⟨by decide, by decide, by decide⟩
 
 /-- **T5 (end to end).** Under the assumed OpenSSL semantics, a `verifyPeer` server admits NO client that presents no
 certificate, and admits a client with a certificate only if it chains to the configured store, is inside its validity
@@ -288,7 +347,7 @@ example :
 (without one: the default paths). -/
 theorem T3_http_client_verify (h : HttpTls) (tf : TFiles) (u : UrlHost) (r : Bool) (c : Ctx) (host sni : Option String)
     (hp : httpClientPlan h tf true u r = .tls c host sni) (hv : h.verifyPeer = true) :
-    c.verify.contains .peer = true ∧ c.trust = (if h.caFileSet then .locations true false else .default) := by
+    c.verify.contains .peer = true ∧ c.trust = (if h.caFileSet then { file := true } else { dflt := true }) := by
   unfold httpClientPlan at hp
   have := T3_client_verify _ _ _ _ c host sni hp (by simp [httpClientCfg, mapCfg, httpClientMap, Src.bool, hv])
   refine ⟨this.1, ?_⟩
@@ -306,6 +365,29 @@ theorem T5_http_server_flags (h : HttpSrvTls) (tf : TFiles) (c : Ctx) (host sni 
     · cases hp
     · have := T5_server_flags _ _ _ c host sni hp (by simp [mapCfg, httpServerMap, Src.bool, hr])
       exact ⟨this.1, this.2.1⟩
+
+/-- **HttpServer (own certificate).** Whenever `enableTls(h)` leads to a TLS listener, its context has LOADED the certificate and the
+key that `h` names and is a server context: `start()` really hands `certFile`/`keyFile` on (consumes `httpServerMap.certFile/keyFile`
+and both `enableTls` preconditions — with either missing, a listener without certificate could be configured). -/
+theorem T5_http_server_presents_cert (h : HttpSrvTls) (tf : TFiles) (c : Ctx) (host sni : Option String)
+    (hp : httpServerPlan (some h) tf = .tls c host sni) :
+    c.certLoaded = true ∧ c.keyLoaded = true ∧ c.role = .server ∧ h.certFileSet = true ∧ h.keyFileSet = true := by
+  simp only [httpServerPlan, enableTlsRequiresCertAndKey, Bool.true_and] at hp
+  split at hp
+  · cases hp
+  · rename_i hck
+    split at hp
+    · cases hp
+    · have hb := (listenPlan_tls hp).1
+      obtain ⟨hrole, _, _, _, hcl, hkl, _⟩ := server_built _ _ _ hb
+      have hck' : h.certFileSet = true ∧ h.keyFileSet = true := by
+        cases hc : h.certFileSet <;> cases hk : h.keyFileSet <;> simp [hc, hk] at hck ⊢
+      refine ⟨?_, ?_, hrole, hck'.1, hck'.2⟩
+      · rw [hcl]; simp [mapCfg, httpServerMap, Src.file, hck'.1, hck'.2]
+      · rw [hkl]; simp [mapCfg, httpServerMap, Src.file, hck'.1, hck'.2]
+
+example : ∃ c host sni, httpServerPlan (some {}) {} = .tls c host sni := ⟨_, _, _, rfl⟩
+example : httpServerPlan (some { keyFileSet := false }) {} = .refuse .enableTls := by decide
 
 /-! ## T6 — the end-to-end decision over the whole matrix -/
 
@@ -429,6 +511,56 @@ theorem T8_listener_tls_never_clear (tc : TCfg) (tf : TFiles) (req : Mode) (hreq
     have hrole := (server_built _ _ _ (listenPlan_tls hp).1).1
     exact sessRun_tls_no_raw _ evs ⟨hreq, by simp [hrole], by simp⟩
 
+/-! ## T7 (receive side) — nothing reaches `onData` except through `SSL_read`, and nothing before the handshake is done -/
+
+/-- **T7 (receive).** For EVERY sequence of events on a TLS session — sends, EPOLLOUT, and EPOLLIN with any bytes pending on the
+wire and any answer of `SSL_do_handshake`: (a) no byte taken off the socket by the raw `::recv` is ever handed to `onData`, and
+no byte goes out raw; (b) as long as `SSL_do_handshake` has not returned 1, NOTHING is delivered to `onData` (all the application
+can see is the close).  `readAvail` itself would read raw for a session in its handshake: the guarantee is the callers', and the
+machine consumes `readAvailSslWhenOpenTls`, `readAvailAfterHandshakeGate`, `driveHsReadsOnlyAfterOpen` and the send-side gates. -/
+theorem T7_recv_only_through_ssl (s : Sess) (evs : List REv) (h : s.IsTls) :
+    (∀ bs, ROut.deliverRaw bs ∉ rRun s evs ∧ ROut.out (.rawWire bs) ∉ rRun s evs) ∧
+    (s.tlsState = .handshake → s.announced = false → (∀ e ∈ evs, e.isHsOk = false) → ∀ o ∈ rRun s evs, o = .out .onClose) :=
+  ⟨rRun_tls s evs h, fun hs ha hev => rRun_pending s evs ⟨h.1, h.2.1, Or.inl hs, ha⟩ hev⟩
+
+/-- **T8 (receive, connect).** Plan and receive machine together: for a request with TLS the session `connect` creates — if any —
+never delivers a raw byte and delivers nothing before its handshake succeeded, for every event sequence. -/
+theorem T8_requested_tls_recv (tc : TCfg) (tf : TFiles) (req : Mode) (t : Target) (hreq : req ≠ .none)
+    (s : Sess) (hs : (connectPlan tc tf req t).session true req = some s) (evs : List REv) :
+    (∀ bs, ROut.deliverRaw bs ∉ rRun s evs) ∧ ((∀ e ∈ evs, e.isHsOk = false) → ∀ o ∈ rRun s evs, o = .out .onClose) := by
+  cases hp : connectPlan tc tf req t with
+  | plain => exact absurd hp (T1_connect_never_plain tc tf req t hreq)
+  | refuse w => simp [hp, Plan.session] at hs
+  | tls c h sn =>
+    simp only [hp, Plan.session, Option.some.injEq] at hs
+    subst hs
+    have hrole := (T3_tls_only_if_enabled tc tf req t c h sn hp).2.2
+    have hT := T7_recv_only_through_ssl { req := req, tlsMode := c.role, tlsState := .handshake, connectPending := true } evs
+      ⟨hreq, by simp [hrole], by simp⟩
+    exact ⟨fun bs => (hT.1 bs).1, hT.2 rfl rfl⟩
+
+/-- same for sessions accepted on a listener requested with TLS -/
+theorem T8_listener_tls_recv (tc : TCfg) (tf : TFiles) (req : Mode) (hreq : req ≠ .none)
+    (s : Sess) (hs : (listenPlan tc tf req).session false req = some s) (evs : List REv) :
+    (∀ bs, ROut.deliverRaw bs ∉ rRun s evs) ∧ ((∀ e ∈ evs, e.isHsOk = false) → ∀ o ∈ rRun s evs, o = .out .onClose) := by
+  cases hp : listenPlan tc tf req with
+  | plain => exact absurd hp (T1_listen_never_plain tc tf req hreq)
+  | refuse w => simp [hp, Plan.session] at hs
+  | tls c h sn =>
+    simp only [hp, Plan.session, Option.some.injEq] at hs
+    subst hs
+    have hrole := (server_built _ _ _ (listenPlan_tls hp).1).1
+    have hT := T7_recv_only_through_ssl { req := req, tlsMode := c.role, tlsState := .handshake, connectPending := false } evs
+      ⟨hreq, by simp [hrole], by simp⟩
+    exact ⟨fun bs => (hT.1 bs).1, hT.2 rfl rfl⟩
+
+/-- non-vacuity: bytes that arrive DURING the handshake are not delivered; after `SSL_do_handshake` = 1 they are, through `SSL_read`;
+a plain session delivers raw (so the machine can tell the difference) -/
+example : rRun { req := .client, tlsMode := .client, tlsState := .handshake } [.inp [1, 2] none] = [] := by decide
+example : rRun { req := .client, tlsMode := .client, tlsState := .handshake } [.inp [1, 2] (some true)] =
+    [.out .onConnect, .deliverTls [1, 2]] := by decide
+example : rRun { req := .none } [.inp [7] none] = [.deliverRaw [7]] := by decide
+
 /-- **T7 (handshake outcomes).** For every session in the handshake and either kind of epoll event: `WANT_READ/WRITE` changes
 nothing and emits nothing (the handshake stays pending, the queue stays queued); a fatal result closes the session, DROPS the
 queue and reports exactly one close. -/
@@ -464,6 +596,79 @@ theorem T10_settings_in_force (ops : List HOp) :
 example : (hStep (hRun {} [.setTls { verifyPeer := false }, .touch]) (.setTls { verifyPeer := true })).2 = true := by decide
 example : hRun {} [.setTls { verifyPeer := false }, .setTls { verifyPeer := true, caFileSet := true }, .touch] =
     { stored := { verifyPeer := true, caFileSet := true }, applied := some { verifyPeer := true, caFileSet := true } } := by decide
+
+/-- **T10 (failed initialisation).** For every history that also contains FAILING initialisations (`_transport->start()` refuses,
+e.g. a `caFile` that cannot be loaded): the client is never left with a dead transport, so while nothing is initialised every
+`setTlsConfig` is accepted (the operator can correct the settings) — and `T10_settings_in_force` keeps holding. -/
+theorem T10_init_failure_recoverable (ops : List HOp) (c : HttpTls) :
+    (hRun {} ops).dead = false ∧ ((hRun {} ops).applied = none → (hStep (hRun {} ops) (.setTls c)).2 = false) := by
+  have hd := hRun_alive {} ops rfl
+  refine ⟨hd, fun ha => ?_⟩
+  simp [hStep, ha, hd]
+
+example : hRun {} [.setTls { caFileSet := true }, .touchFail, .setTls {}, .touch] = { stored := {}, applied := some {} } := by decide
+example : (hStep (hRun {} [.setTls { caFileSet := true }, .touchFail]) .touchFail).2 = true := by decide
+
+/-! ## T11 — `HttpServer`: the TLS settings in force are the ones `enableTls` accepted last, over every call history -/
+
+/-- **T11.** For EVERY history of `enableTls` / `start` / `stop` calls on one `HttpServer`: (a) a started server runs with exactly
+the settings `enableTls` accepted last — a call that can no longer take effect (the server is started) throws instead of being
+silently ignored; (b) therefore a server on which an `enableTls` is in force never serves clear text, also after any number of
+restarts; (c) an accepted `enableTls` stores its argument, and `start`/`stop` never drop it. -/
+theorem T11_server_settings_in_force (ops : List HSOp) (tf : TFiles) :
+    ((hsRun {} ops).running = none ∨ (hsRun {} ops).running = some (hsRun {} ops).stored) ∧
+    ((hsRun {} ops).stored.isSome = true → (hsRun {} ops).plan tf ≠ some .plain) := by
+  have hc := hsRun_coherent {} ops (Or.inl rfl)
+  refine ⟨hc, fun hs => ?_⟩
+  rcases hc with hc | hc
+  · simp [HSState.plan, hc]
+  · obtain ⟨h, hh⟩ := Option.isSome_iff_exists.mp hs
+    simp only [HSState.plan, hc, hh, Option.map_some, ne_eq, Option.some.injEq]
+    exact T1_httpserver_never_plain h tf
+
+theorem T11_enableTls_effect (s : HSState) (c : HttpSrvTls) :
+    ((hsStep s (.enableTls c)).2 = false → (hsStep s (.enableTls c)).1.stored = some c ∧ s.running = none) ∧
+    (∀ o h, s.stored = some h → (hsStep s o).1.stored.isSome = true) := by
+  refine ⟨fun hok => ?_, fun o h hs => hsStep_keeps s o h hs⟩
+  simp only [hsStep, enableTlsRejectsWhenStarted, Bool.true_and] at hok ⊢
+  cases hr : s.running with
+  | some a => simp [hr] at hok
+  | none =>
+    simp only [hr, Option.isSome_none, Bool.false_eq_true, if_false] at hok ⊢
+    split at hok
+    · simp at hok
+    · rename_i hv; simp [hv]
+
+/-- the defect this repairs: `start(); enableTls(c)` — accepted by the unrepaired code, the listener staying plain — now throws;
+the two legal orders give a TLS listener, and a restart keeps it -/
+example : (hsStep (hsRun {} [.start]) (.enableTls {})).2 = true := by decide
+example : (hsRun {} [.enableTls {}, .start, .stop, .start]).running = some (some {}) := by decide
+example : (hsRun {} [.start, .stop, .enableTls {}, .start]).running = some (some {}) := by decide
+example : ∃ c h s, (hsRun {} [.enableTls {}, .start]).plan {} = some (.tls c h s) := ⟨_, _, _, rfl⟩
+
+/-! ## T12 — `IoraService`: server TLS settings are never silently dropped -/
+
+/-- **T12.** For every combination of the optional `server.tls` settings and every state of the files: when the operator asked for
+TLS (a certificate or a key is named, or client certificates are required) the service's webhook server is a TLS listener or the
+start is refused (incomplete settings, unloadable files) — NEVER a clear-text listener.  (The defect this repairs: the condition
+used to be `certFile && keyFile && caFile`, so certificate + key without a CA file started a plain server.) -/
+theorem T12_service_requested_tls_never_plain (c : SvcTls) (tf : TFiles) (h : c.requested = true) :
+    servicePlan c tf ≠ .plain := by
+  have hc : serviceHasTls.eval c.env = true := by
+    simp only [SvcTls.requested, Bool.or_eq_true] at h
+    simp only [serviceHasTls, G.eval, SvcTls.env, Env.atom]
+    rcases h with (h | h) | h <;> simp [h]
+  simp only [servicePlan, hc, if_true]
+  exact T1_httpserver_never_plain _ tf
+
+/-- the witness of the repaired defect is a TLS listener now; nothing asked = plain, as before; half a configuration is refused -/
+example : ∃ ctx h s, servicePlan { certSet := true, keySet := true } {} = .tls ctx h s := ⟨_, _, _, rfl⟩
+example : servicePlan {} {} = .plain := by decide
+example : servicePlan { certSet := true } {} = .refuse .enableTls := by decide
+example : servicePlan { requireClientCert := true, certSet := true, keySet := true } {} = .refuse .enableTls := by decide
+/-- and the old condition is refuted by exactly that witness -/
+example : (G.and (.and (.atom .certFileSet) (.atom .keyFileSet)) (.atom .caFileSet)).eval (SvcTls.env { certSet := true, keySet := true }) = false := by
+  decide
 
 /-! ## pins on generated facts that the model takes for granted -/
 
